@@ -56,7 +56,18 @@ def ladder_cases(top):
         yield ",".join(quote("Doe, John <j%d@example.org>" % i) for i in range(n))
 
 
+ML_EXTRA = [
+    # lines that only LOOK like the terminator (dot + blanks, dot + CR), followed by text that would be valid Sieve on its own
+    "text:\nfirst\n. \n;\nstop;\nreject text:\nbye\n.",
+    "text:\nfirst\n.\t\n;\nkeep;\nredirect text:\nbye\n.",
+    "text:\r\nfirst\r\n. \r\n;\r\nstop;\r\nreject text:\r\nbye\r\n.",
+    "TEXT:\n.x\n. .\n;\nstop;\nreject text:\nbye\n.",
+]
+
+
 def ml_cases(maxlines):
+    for m in ML_EXTRA:
+        yield m
     for n in range(0, maxlines + 1):
         for tup in itertools.product(ML_LINES, repeat=n):
             for eol in ("\n", "\r\n"):
